@@ -32,6 +32,9 @@ STR_TAGS = {"author": "{%s}creator" % DC, "category": "{%s}category" % CP, "comm
 DATE_TAGS = {"created": "{%s}created" % DCT, "last_printed": "{%s}lastPrinted" % CP, "modified": "{%s}modified" % DCT}
 REV_TAG = "{%s}revision" % CP
 TYPED = ("created", "modified")
+# revisions beyond TLC's 32-bit integers travel as codes (MC_CoreProps.RevsFull)
+REV_BIG = {2147483001: 2 ** 31, 2147483002: 2 ** 53 + 1, 2147483003: 10 ** 20}
+REV_CODE_OF = {v: k for k, v in REV_BIG.items()}
 EMPTY_CORE = ('<?xml version="1.0" encoding="UTF-8" standalone="yes"?>\n<cp:coreProperties xmlns:cp="%s" xmlns:dc="%s" '
               'xmlns:dcterms="%s" xmlns:xsi="%s"/>' % (CP, DC, DCT, XSI)).encode()
 
@@ -272,8 +275,12 @@ class Bench:
         els = root.findall(REV_TAG)
         txt = (els[0].text or "") if els else ""
         x = int(txt) if re.fullmatch(r"[0-9]{1,10}", txt) and int(txt) < 2 ** 31 else (-1 if els else 0)
+        if re.fullmatch(r"[0-9]{1,40}", txt) and int(txt) in REV_CODE_OF:
+            x = REV_CODE_OF[int(txt)]
         try:
             r = cp.revision
+            if isinstance(r, int) and not isinstance(r, bool) and r in REV_CODE_OF:
+                r = REV_CODE_OF[r]
             r = r if isinstance(r, int) and not isinstance(r, bool) and 0 <= r < 2 ** 31 else -2
         except Exception:
             r = -3
@@ -303,7 +310,7 @@ class Bench:
                 setattr(self.prs.core_properties, a["p"], v)
             elif op == "SetRev":
                 k, n = a["kind"], a["n"]
-                v = n if k == "int" else (float(n) if n == 1 else 1.5) if k == "float" else str(n) if k == "str" else None if k == "none" else bool(n)
+                v = REV_BIG.get(n, n) if k == "int" else (float(n) if n == 1 else 1.5) if k == "float" else str(n) if k == "str" else None if k == "none" else bool(n)
                 self.prs.core_properties.revision = v
             elif op == "SaveReopen":
                 self.reopen(self.save_bytes())
